@@ -59,6 +59,10 @@ def gen_program(rng, idx):
         if rng.random() < 0.5:
             pool = ["A"] + names[: t - 1]
             fs = [rng.choice(pool) for _ in range(2)]
+            if sum(1 for f in fs if starts.get(f) == "1") >= 2:
+                # one @ one plus another term is the bare-`one` sum the library cannot form
+                # (known finding of C18, not a subject of C09)
+                continue
             fwd.append((" @ ".join(fs), t, False))
     seen = set()
     allp = []
